@@ -288,7 +288,12 @@ class Gen:
             steps = 0
             while sent < n or ci < len(chunks):
                 if terminal and steps == term_at:
-                    evs.append([terminal])
+                    if terminal == "close":
+                        # close() as the client calls it: with each CloseReason (or none)
+                        evs.append(["close", rng.choice([None, "SHUTDOWN", "SHUTDOWN", "IDLE_DROP", "CONNECTION_BROKEN",
+                                                          "CONNECTION_TIMEOUT", "OUT_OF_SYNC", "AUTH_FAILURE"])])
+                    else:
+                        evs.append([terminal])
                     terminal = None
                     meta["clean"] = False
                     meta["terminated"] = True
@@ -383,6 +388,15 @@ class Gen:
                     evs = self.send_events(reqs) + ([["feed", stream[:p].hex()]] if p else []) + [[term]]
                     self.add(reqs, evs, corr0, {"family": fam + "-" + term, "clean": False, "terminated": True,
                                                 "stream": stream[:p].hex(), "frames": owners, "cut": p,
+                                                "expect_closed": True})
+            # close() as the client issues it - with every CloseReason (and none) - after every whole-frame prefix
+            for j in range(len(frames) + 1):
+                pre = b"".join(f["bytes"] for f in frames[:j])
+                for reason in (None, "SHUTDOWN", "IDLE_DROP", "CONNECTION_BROKEN", "CONNECTION_TIMEOUT", "OUT_OF_SYNC",
+                               "AUTH_FAILURE"):
+                    evs = self.send_events(reqs) + ([["feed", pre.hex()]] if j else []) + [["close", reason]]
+                    self.add(reqs, evs, corr0, {"family": fam + "-close", "clean": False, "terminated": True,
+                                                "stream": pre.hex(), "frames": owners, "cut": len(pre),
                                                 "expect_closed": True})
             # truncated body at every position, for every request of the pipeline
             for j, fr in enumerate(frames):
